@@ -33,6 +33,8 @@ def px(e, o="self", loops=None):
     if t == "inlist":
         return "%s.inside(%s)" % (px(e["e"], o), ppath(e["p"], o))
     if t == "ps":
+        if "bit_f" in e:
+            return "%s[%s]" % (ppath(e["p"], o), ppath(e["bit_f"], o))
         return "%s[%d:%d]" % (ppath(e["p"], o), e["hi"], e["lo"])
     if t in ("size", "sum", "product"):
         return "%s.%s" % (ppath(e["p"], o), t)
